@@ -56,3 +56,9 @@ c02=tc+["table/c02.go","table/c03.go","table/c14.go"]
 add("C02.locrib_step","VH_c02_locrib_step",TBL,c02,{"params":{"steps":3,"segs":1},"unwind":300},{"params":{"steps":4,"segs":1},"unwind":300},merge=C3M,expect_reach=["end"],bounds="histories of `steps` operations (announce/withdraw, dropped or not) on one destination from 3 sources x 2 path-ids, LOCAL_PREF and timestamps symbolic")
 add("C02.adj_step","VH_c02_adj_step",TBL,c02,{"params":{"steps":2,"segs":1},"unwind":2200},{"params":{"steps":3,"segs":1},"unwind":2200,"harness_s":2400},expect_reach=["end"],bounds="histories of `steps` Adj-RIB-In updates over 2 prefixes x 2 path-ids, withdraw and rejected flags symbolic")
 add("C02.snapshot_independent","VH_c02_snapshot_independent",TBL,c02,{"params":{"segs":1},"unwind":2200},{"params":{"segs":1},"unwind":2200},merge=C3M,expect_reach=["end"])
+c09=tc+["table/c09.go","table/c14.go"]
+add("C09.export","VH_c09_export",TBL,c09,expect_reach=["end"],bounds="stored route: local or learned (symbolic source AS), AS_PATH of 5 shapes (none, SEQ of 1-2, CONFED_SEQ+SEQ, SET+SEQ) with symbolic ASNs, symbolic next hop, presence of MED/LOCAL_PREF/ORIGINATOR_ID/CLUSTER_LIST symbolic, one unknown attribute transitive or not; target: eBGP, eBGP confederation member, iBGP, RR client, RS client")
+add("C09.private_replace","VH_c09_private_replace",TBL,c09,expect_reach=["end"])
+SRV="pkg/server"
+sc=["server/common.go"]
+add("C09.filterpath","VH_c09_filterpath",SRV,sc+["server/c09.go"],expect_reach=["end"],bounds="target eBGP or iBGP (RR client or not) with symbolic AS; route from another peer (symbolic AS, RR client or not) or from the same router; AS_PATH of 3 shapes (SEQ, SEQ+SET, CONFED_SEQ+SEQ) with symbolic ASNs")
